@@ -14,6 +14,66 @@ PROPS = {
         "assumptions": [],
         "explanation": "",
     },
+    "C26": {
+        "level": "proof",
+        "kani": ["c26_serde"],
+        "verus": [],
+        "level_text": "Round-trip, exact-length and rejects-malformed contracts on the real encoders/decoders; scalar "
+                      "codecs are loop-free and checked over their full machine domains (complete); containers are bounded.",
+        "level_note": "Trusted: Kani/CBMC model of alloc (Vec, String::from_utf8). Containers (Vec, String) are "
+                      "bounded to <= 3 elements and labelled so; BTreeMap/BTreeSet not under contract.",
+    },
+    "C05": {
+        "level": "model_checking",
+        "kani": ["c05_air", "c26_serde"],
+        "verus": [],
+        "level_text": "Panic-freedom contract (requires true, ensures returns Ok or Err) on every decoder and verifier-side "
+                      "parser, checked by Kani on a nondeterministic reader: complete for loop-free decoders, bounded "
+                      "(stated input budget) for count-driven ones.",
+        "level_note": "Trusted: Kani's model of alloc (an oversized Vec::with_capacity is a reachable capacity_overflow; a "
+                      "huge allocation below isize::MAX is not modelled). verify() as a whole is not under contract; "
+                      "its decoders/parsers are, function by function.",
+    },
+    "C07": {
+        "level": "model_checking",
+        "kani": ["c05_air"],
+        "verus": [],
+        "level_text": "Contract pair encode/decode checked in composed form read_from(to_bytes(v)) == Ok(v) with v built "
+                      "by the public constructor from fully symbolic arguments (complete in all scalar arguments; "
+                      "container contents bounded).",
+        "level_note": "Trusted: Kani/CBMC, alloc model. Metadata/container lengths bounded as labelled per obligation.",
+    },
+    "C21": {
+        "level": "proof",
+        "kani": ["c21_assertions"],
+        "verus": ["assertions"],
+        "level_text": "overlaps_with (exactly when a common cell exists) and validate_trace_length (accepts exactly the fitting "
+                      "lengths) are proved in Verus on the extracted real text for every trace length; step sets, order, "
+                      "values and counts of apply/get_num_steps are checked by Kani for trace lengths 8 and 16 (bounded, labelled).",
+        "level_note": "Trusted: Verus/Z3, Kani/CBMC; assume_specification for usize::is_power_of_two (cross-checked by a "
+                      "full-domain Kani harness). apply/get_num_steps use closures Verus rejects: bounded Kani only.",
+    },
+    "C25": {
+        "level": "proof",
+        "kani": ["c25_security", "c25_validate"],
+        "verus": [],
+        "level_text": "ConjecturedSecurity::compute and AcceptableOptions::validate are loop-free integer code: the bounds, "
+                      "monotonicity (two-call relational contract) and accept-iff-threshold contracts are checked by Kani "
+                      "over every constructor-accepted option value, every field size and every collision-resistance level.",
+        "level_note": "Trusted: Kani/CBMC. Not covered: ProvenSecurity::compute (f64 log2/powf/sqrt: neither verifier models "
+                      "libm) - only its is_at_least/max logic is under contract; its bounds and monotonicity are not decided.",
+    },
+    "C24": {
+        "level": "model_checking",
+        "kani": ["c24_seed"],
+        "verus": [],
+        "level_text": "Two-context relational contract on Context::to_elements: equal seed vectors imply equal parameters. "
+                      "Complete in every scalar parameter of both contexts (full constructor-accepted ranges); metadata "
+                      "bounded to the lengths listed (crossing the 15-byte chunk of f128).",
+        "level_note": "Run at E = f128 (identity representation); transfer to f64/f62 rests on injectivity of their "
+                      "From<u32>/from_bytes_with_padding, i.e. as_int(new(v)) == v (C11, Verus). Known finding F17 "
+                      "(trailing zero bytes of metadata) is reported, not suppressed for other inputs.",
+    },
 }
 
 NOT_APPLICABLE = {
